@@ -11,11 +11,15 @@ CLAIMED = {
              "block's tx, and published first). The counterexamples are replayed on the real keeper at deterministic yield points "
              "(a precompile registered through Keeper.AddPrecompiles runs the query in the middle of the block's tx) and recorded as "
              "known findings C09-ethcall-bank-precompile, C09-simulate-ethtx, C09-simulate-convert; the isolated query kinds are "
-             "checked to leave the block's result unchanged.",
+             "checked to leave the block's result unchanged. Correspondence: for every case (thirteen query kinds x four yield points) "
+             "the model's prediction same / DIFFERS (the kind's program of pointer, StateDB, bank, flush and commit steps under the yield "
+             "point's schedule) must equal what the real block execution shows; T1 facts pin that SetAccBalance writes back through the "
+             "embedded BaseKeeper and that every bank override mirrors only gas-token movements.",
         note="The property is FALSE on the unchanged tree for the listed query kinds (not repaired: the repair is a redesign of how "
              "the StateDB reaches the bank wrapper). What no model can exhibit: the Go scheduler, the memory model, data races proper; "
              "the harness replays sequentialised schedules only. Trusted: Lean kernel; harness.",
-        technique="Lean 4 proof (simulation relation over all interleavings; closed counterexample schedules by simp) + deterministic "
+        technique="Lean 4 proof (simulation relation over all interleavings; closed counterexample schedules by simp) + differential "
+                  "correspondence (model predicts each case's verdict) + deterministic "
                   "yield-point replay on the real keeper with property oracle",
         ref="§7 C09"),
     "C01": dict(
